@@ -16,7 +16,8 @@ import z3
 
 from pyvc import front
 from pyvc.main import Prop
-from pyvc.values import Fn, Obj, Opaque, Seq, Undecided
+from pyvc.execu import z3ify
+from pyvc.values import Fn, Obj, Opaque, Seq, Undecided, fresh_name
 
 TRACKED = {"steps", "total_steps"}
 TR = "agilerl.training."
@@ -124,6 +125,98 @@ def build(tier):
                ensures=["last(agent.steps) == old(last(agent.steps)) + env_steps", "len(agent.steps) == old(len(agent.steps))",
                         "total_steps == old(total_steps) + env_steps"],
                replay="c20:counters")
+
+    # train_bandits: what is stored for learn() is the context of the CHOSEN arm (one row of the context matrix) and its reward
+    from . import ndt
+    from .ndt import ND
+    ARMS, DIM = 3, 4
+    CTX = z3.Function("context", z3.IntSort(), z3.IntSort(), z3.RealSort())
+    ACT, REW = z3.Int("chosen_arm"), z3.Real("reward_of_step")
+    stored = []
+
+    class TDm:
+        def __init__(self, fields, batch=None):
+            self.fields, self.batch = dict(fields), batch
+
+        def getattr(self, ex, st, name):
+            if name == "unsqueeze":
+                def unsq(ex, st, a, k):
+                    return TDm({kk: (v.unsqueeze(a[0]) if isinstance(v, ND) else ND([1], (lambda idx, v=v: v), "scalar")) for kk, v in self.fields.items()}, [1])
+                return Fn(model=unsq, name=name)
+            if name in ("float", "to", "clone"):
+                return Fn(model=lambda ex, st, a, k: TDm(self.fields, self.batch), name=name)
+            if name == "batch_size":
+                return self.batch
+            raise Undecided(f"TensorDict attribute {name}")
+
+        def setattr(self, ex, st, name, v):
+            if name == "batch_size":
+                self.batch = list(v)
+                return
+            raise Undecided(f"TensorDict attribute store {name}")
+
+    def bandit_store_setup(ex, st, fr):
+        stored.clear()
+        agent = Obj("model.Bandit", label="agent")
+        agent.fields["get_action"] = Fn(model=lambda ex, st, a, k: ACT, name="get_action")
+        env_ = Obj("model.BanditEnv", label="env")
+        env_.fields["step"] = Fn(model=lambda ex, st, a, k: (ND([ARMS, DIM], lambda idx: z3.Real(fresh_name("next_ctx")), "next_context", True), REW), name="step")
+        mem = Obj("model.Memory", label="memory")
+        mem.fields["add"] = Fn(model=lambda ex, st, a, k: stored.append(a[0]), name="add")
+        st.assume(z3.And(0 <= ACT, ACT < ARMS))
+        st.locals.update(dict(agent=agent, env=env_, memory=mem, swap_channels=False,
+                              context=ND([ARMS, DIM], lambda idx: CTX(z3ify(idx[0]), z3ify(idx[1])), "context", True)))
+
+    def stored_ok():
+        if len(stored) != 1 or not isinstance(stored[0], TDm) or stored[0].batch != [1]:
+            return z3.BoolVal(False)
+        obs, rew = stored[0].fields.get("obs"), stored[0].fields.get("reward")
+        if not (isinstance(obs, ND) and len(obs.shape) == 2 and ndt.cp(obs.shape[0]) == (1, None) and ndt.cp(obs.shape[1]) == (DIM, None)):
+            return z3.BoolVal(False)                   # learn() expects (batch, context_dim): the chosen arm's context, not the matrix of all arms
+        if not isinstance(rew, ND):
+            return z3.BoolVal(False)
+        return z3.And(*[obs.at([z3.IntVal(0), z3.IntVal(j)]) == CTX(ACT, j) for j in range(DIM)], rew.flat(z3.IntVal(0)) == REW)
+    P.specns["stored_ok"] = stored_ok
+    P.lib["tensordict.TensorDict"] = lambda ex, st, a, k: TDm(a[0])
+    P.contract(TR + "train_bandits.train_bandits", variant="stored-transition", setup=bandit_store_setup,
+               region=__import__("contracts.C17", fromlist=["region"]).region("action = agent.get_action(context)", "memory.add(transition)"),
+               params={p.arg: "opaque" for p in f.args.args + f.args.kwonlyargs if p.arg not in ("env", "memory", "swap_channels")},
+               requires=[], frame_fields=False, ensures=["stored_ok()"], replay="c20:bandits")
+
+    # what the sampler returns (a TensorDict with keys obs/action/reward/next_obs/done) is accepted by learn(): the first statements
+    # of TD3.learn and CQN.learn bind each name to ITS field of the sampled batch
+    class Batch:
+        """TensorDict of 4 sampled rows: indexing by key gives the field, iterating gives the rows"""
+        F = {k: Opaque("field:" + k) for k in ("obs", "action", "reward", "next_obs", "done")}
+
+        def getitem(self, ex, st, k):
+            if isinstance(k, str) and k in self.F:
+                return self.F[k]
+            raise Undecided(f"batch index {k}")
+
+        def iter_concrete(self, ex, st):
+            return [Opaque(f"row{i}") for i in range(4)]
+
+        def isinstance(self, ex, st, names):
+            return any(n in ("TensorDict", "TensorDictBase") for n in names)
+
+        def hasattr(self, ex, st, name):
+            return name in ("keys", "batch_size", "get")
+
+        def getattr(self, ex, st, name):
+            if name == "keys":
+                return Fn(model=lambda ex, st, a, k: list(self.F), name="keys")
+            raise Undecided(f"batch attribute {name}")
+    P.specns["fields_bound"] = lambda s_, a_, r_, n_, d_: z3.BoolVal(s_ is Batch.F["obs"] and a_ is Batch.F["action"] and r_ is Batch.F["reward"]
+                                                                  and n_ is Batch.F["next_obs"] and d_ is Batch.F["done"])
+    reg17 = __import__("contracts.C17", fromlist=["region"]).region
+    for q_, nm_ in (("agilerl.algorithms.td3.TD3.learn", "C20_demo_1"), ("agilerl.algorithms.cqn.CQN.learn", "C20_demo_1")):
+        o_, m_, f_ = front.find_function(q_)
+        first_stmt = ast.unparse(front.strip_doc(f_.body)[0])[:40]
+        P.contract(q_, variant="sampled-batch", region=reg17(first_stmt, "states, actions, rewards, next_states, dones = experiences"),
+                   params={**{p.arg: "opaque" for p in f_.args.args + f_.args.kwonlyargs if p.arg != "experiences"}, "experiences": (lambda ex, st, l: Batch())},
+                   requires=[], frame_fields=False, ensures=["fields_bound(states, actions, rewards, next_states, dones)"],
+                   replay={"adapter": "demos:run", "payload": {"name": nm_}})
 
     def wiring():
         bad = []
